@@ -198,6 +198,9 @@ def run(check, ctx):
     # the Merkle-Damgard hashes with the compression function uninterpreted: padding, length field, serialisation, IVs
     from . import c_md
     c_md.md_tables(check, ctx)
+    # the compression functions and Keccak-p themselves, concretely, against an independent implementation
+    from . import c_digest
+    c_digest.digest_tables(check, ctx)
     # KangarooTwelve's tree bookkeeping in Python
     from . import c09_extra
     c09_extra.k12_tree_rows(check, repo)
